@@ -520,11 +520,12 @@ Section Wrap.
   Variable leafc : name -> leaf -> bool.
   Variable objc : name -> name -> list (bytes * rv) -> bool.
   Variable obje : name -> name -> list (bytes * rv) -> list (path * leaf).
+  Variable n0 : name.   (* the named type at the bottom *)
 
-  Hypothesis Hleaf : forall n l, leafc n l = true ->
+  Hypothesis Hleaf : forall l, leafc n0 l = true ->
     json_of_leaf l <> JNull /\ decodes P core (json_of_leaf l) [([], l)].
-  Hypothesis Hobj : forall n tn fs, objc n tn fs = true ->
-    decodes P core (json_of (RObj tn fs)) (obje n tn fs).
+  Hypothesis Hobj : forall tn fs, objc n0 tn fs = true ->
+    decodes P core (json_of (RObj tn fs)) (obje n0 tn fs).
 
   Lemma decodes_ptr j l : j <> JNull -> decodes P core j l -> decodes P (GPtr core) j l.
   Proof.
@@ -534,17 +535,18 @@ Section Wrap.
   Qed.
 
   Lemma decode_wrap ft : forall nn w,
+    unwrap ft = n0 ->
     conf_val leafc objc ft nn w = true ->
     decodes P (wrap ft nn core true) (json_of w) (exp_val obje ft w).
   Proof.
-    induction ft as [n|ft' IH|ft' IH]; intros nn w Hc; simpl in Hc; simpl wrap.
+    induction ft as [n|ft' IH|ft' IH]; intros nn w Hu Hc; simpl in Hc, Hu; simpl wrap.
     - (* named *)
-      destruct w as [|l|l|tn fs]; simpl in *.
+      subst n. destruct w as [|l|l|tn fs]; simpl in *.
       + (* null *) destruct nn; [discriminate|]. simpl.
         apply (decodes_intro P _ _ _ 1 VNil); [reflexivity|]. intros pl. simpl. reflexivity.
-      + destruct (Hleaf _ _ Hc) as [Hnn Hd]. destruct nn; simpl; [exact Hd | apply decodes_ptr; assumption].
+      + destruct (Hleaf _ Hc) as [Hnn Hd]. destruct nn; simpl; [exact Hd | apply decodes_ptr; assumption].
       + discriminate.
-      + pose proof (Hobj _ _ _ Hc) as Hd. destruct nn; simpl; [exact Hd | apply decodes_ptr; [discriminate | exact Hd]].
+      + pose proof (Hobj _ _ Hc) as Hd. destruct nn; simpl; [exact Hd | apply decodes_ptr; [discriminate | exact Hd]].
     - (* list *)
       destruct w as [|l|l|tn fs]; try discriminate.
       + destruct nn; [discriminate|]. simpl.
@@ -556,7 +558,7 @@ Section Wrap.
         { clear nn. induction l as [|x r IHl].
           - exists 0, []. split; [intros; reflexivity | constructor].
           - simpl in Hc. apply andb_true_iff in Hc as [Hx Hr].
-            destruct (IH false x Hx) as [k1 [v [Hd Hl]]]. destruct (IHl Hr) as [k2 [vs [Hds Hls]]].
+            destruct (IH false x Hu Hx) as [k1 [v [Hd Hl]]]. destruct (IHl Hr) as [k2 [vs [Hds Hls]]].
             exists (Nat.max k1 k2), (v :: vs). split; [|constructor; assumption].
             intros fuel Hf. simpl. rewrite (Hd fuel) by lia. simpl. rewrite (Hds fuel) by lia. reflexivity. }
         destruct Hall as [k [vs [Hd Hls]]].
@@ -574,6 +576,6 @@ Section Wrap.
                 destruct (Forall2_nth_error_l _ _ _ Hls n w H1) as [v [Hv Hlw]].
                 exists n, v, p'. split; [exact Hv|]. split; [exact H2|]. apply Hlw. exact H3.
     - (* non-null *)
-      apply IH. exact Hc.
+      apply IH; assumption.
   Qed.
 End Wrap.
